@@ -12,7 +12,7 @@ from sa.report import Ctx
 
 from .common import generic_sweeps
 
-from .cp_common import check_alldiff_coverage, check_cumulative_horizon, check_id_allocation, flattener_tags, produced_tags, shape_dispatch_falls_through, structural_len_subjects
+from .cp_common import check_alldiff_coverage, check_constraint_table, check_small_semantics, check_cumulative_horizon, check_id_allocation, flattener_tags, produced_tags, shape_dispatch_falls_through, structural_len_subjects
 
 EXPLANATION = (
     "Decides structural necessary conditions of 'the CNF has exactly the CP models' on cp_encoder.py: (O1) the "
@@ -23,7 +23,7 @@ EXPLANATION = (
     "that compares the size of a collection with a literal (cardinality cut-off) - only emptiness, domain-membership "
     "and arithmetic guards may skip; (O4) no structural shape dispatch of linear constraints falls through silently "
     "and the encoder's linearisation consumes (or loudly rejects) every expression tag; (O5) decoding reads, for each "
-    "named variable, only that variable's own literals and returns a value of its domain. (O7) each boolean-id counter is written only by its initialisation and its allocator, auxiliary variables draw their literals from the encoder's allocator, and the encoder stores nothing in the model. (O8) in the scheduling encoders an additive term never mixes the start of one task with the duration of another. (O9) partial-sum domains are clamped against the target only by what the remaining variables can contribute, and sum_le / sum_ge are mirror images. (O10) cumulative emits its capacity clauses for every instant up to and including the latest possible start. (O11) circuit excludes every value outside the node indices. NOT decided: clause-level "
+    "named variable, only that variable's own literals and returns a value of its domain. (O7) each boolean-id counter is written only by its initialisation and its allocator, auxiliary variables draw their literals from the encoder's allocator, and the encoder stores nothing in the model. (O8) in the scheduling encoders an additive term never mixes the start of one task with the duration of another. (O9) partial-sum domains are clamped against the target only by what the remaining variables can contribute, and sum_le / sum_ge are mirror images. (O10) cumulative emits its capacity clauses for every instant up to and including the latest possible start. (O11) circuit excludes every value outside the node indices. (O12) producer/consumer agreement of constraint and expression tuples, position by position. (O13) the unit-sized encoders agree with their definition clause by clause. NOT decided: clause-level "
     "correctness of each pairwise / partial-sum / MTZ / time-indexed encoding."
 )
 
@@ -336,6 +336,8 @@ def run(ctx: Ctx):
     check_same_task(ctx, "C06-O8")
     check_partial_sum_domains(ctx, "C06-O9")
     check_circuit_universe(ctx, "C06-O11")
+    check_constraint_table(ctx, "C06-O12")
+    check_small_semantics(ctx, "C06-O13", encoder=True, dfs=False)
     check_cumulative_horizon(ctx, "C06-O10")
 
     # O4 dispatch totality / expression tags
@@ -492,6 +494,31 @@ def _v_circuit_values_unbounded(tree):
     M.replace_stmt(g, lambda s: isinstance(s, ast.For) and M.src_has(s, "val < 0 or val >= n"), [])
 
 
+def _v_cumulative_args_swapped(tree):
+    g = M.find_func(tree, "Model.cumulative")
+    M.replace_expr(g, lambda e: isinstance(e, ast.Tuple) and M.src_has(e, "'cumulative'"), M.expr("('cumulative', tuple(starts), tuple(demands), tuple(durations), capacity)"))
+
+
+def _v_rsub_as_sub(tree):
+    g = M.find_func(tree, "IntVar.__rsub__")
+    M.replace_expr(g, lambda e: isinstance(e, ast.Tuple) and M.src_has(e, "'rsub'"), M.expr("('sub', self, other)"))
+
+
+def _v_dispatcher_drops_ne_var(tree):
+    g = M.find_func(tree, "SATEncoder._encode_constraint")
+    M.replace_expr(g, lambda e: isinstance(e, ast.Compare) and M.src_is(e, "kind == 'ne_var'"), M.expr("kind == 'ne_var_'"))
+
+
+def _v_eq_var_one_direction(tree):
+    g = M.find_func(tree, "SATEncoder._encode_eq_var")
+    M.replace_stmt(g, lambda s: isinstance(s, ast.Expr) and M.src_is(s.value, "self._clauses.append([var1.bool_vars[val], -var2.bool_vars[val]])"), [])
+
+
+def _v_ne_const_positive(tree):
+    g = M.find_func(tree, "SATEncoder._encode_ne_const")
+    M.replace_expr(g, lambda e: M.src_is(e, "[-var.bool_vars[val]]"), M.expr("[var.bool_vars[val]]"))
+
+
 def _t_reformat(tree):
     pass
 
@@ -526,5 +553,10 @@ VARIANTS = [
     M.Variant("cumulative scans start instants with an exclusive upper end (seeds C05-E / C06-F)", ENC, _v_cumulative_last_start_unchecked, "C06-O10"),
     M.Variant("twin: cumulative scans up to and including the latest start", ENC, _t_cumulative_start_instants, None),
     M.Variant("circuit leaves successor values outside 0..n-1 unconstrained (original defect)", ENC, _v_circuit_values_unbounded, "C06-O11"),
+    M.Variant("cumulative constructor stores demands and durations in swapped order", "solvor/cp.py", _v_cumulative_args_swapped, "C06-O12"),
+    M.Variant("int - x builds a 'sub' tuple (read as x - int)", "solvor/cp.py", _v_rsub_as_sub, "C06-O12"),
+    M.Variant("encoder dispatcher has no arm for ne_var", ENC, _v_dispatcher_drops_ne_var, "C06-O12"),
+    M.Variant("eq_var encoded in one direction only", ENC, _v_eq_var_one_direction, "C06-O13"),
+    M.Variant("ne_const asserts the value instead of excluding it", ENC, _v_ne_const_positive, "C06-O13"),
     M.Variant("twin: reformat", ENC, _t_reformat, None),
 ]
